@@ -2,6 +2,9 @@ package checks
 
 import (
 	"fmt"
+	"os"
+	"os/exec"
+	"path/filepath"
 	"strings"
 
 	"git.defalsify.org/vise.git/vm"
@@ -25,10 +28,10 @@ func init() {
 			"NOOP (opcode 0) is a defined opcode that is not an instruction of the language; records that decode to a NOOP are not judged",
 			"for damage other than pure truncation the VM is only required not to panic and not to report success past a malformed instruction (earlier instructions may have changed meaning)",
 		},
-		Real:       []string{"vm (decoder, runner, disassembler)", "engine", "state", "cache", "render", "resource"},
-		Stub:       []string{"store handing back the damaged record (application table)", "independent decoder refcodec (oracle)", "client", "external functions"},
+		Real:        []string{"vm (decoder, runner, disassembler)", "engine", "state", "cache", "render", "resource"},
+		Stub:        []string{"store handing back the damaged record (application table)", "independent decoder refcodec (oracle)", "client", "external functions"},
 		HangSeconds: 120, // single runs of this check take seconds, more on a loaded machine
-		FaultKinds: []string{"record_corrupt:truncate", "record_corrupt:replace", "record_corrupt:append"},
+		FaultKinds:  []string{"record_corrupt:truncate", "record_corrupt:replace", "record_corrupt:append"},
 		Post: func(cov map[string]interface{}) {
 			cov["exhaustive_note"] = "per program the damage catalogue is enumerated completely; programs are sampled"
 		},
@@ -265,12 +268,37 @@ func runC15(c *core.Ctx) *core.Outcome {
 		o.Probes["long_prefix"]++
 		o.Probes[fmt.Sprintf("long_prefix_%d_instructions", n)]++
 		long := func(tail []byte) []byte { return append(append([]byte(nil), pb...), tail...) }
+		// reader 3, for these long records: the repository's disassembler executable (dev/disasm), run on a
+		// file on the real file system. Exit status 0 is "processed a sequence of complete, valid instructions"
+		exe := func(desc string, b []byte) {
+			insts, _, derr := app.Decode(b)
+			for _, in := range insts {
+				if in.Op == app.NOOP {
+					return
+				}
+			}
+			ok, msg := runDisasm(b)
+			if msg != "" {
+				panic("C15 harness: cannot run the disassembler executable: " + msg)
+			}
+			o.Counts["disasm_executable_runs"]++
+			if derr != nil && ok {
+				addV("disassembler-accepts-malformed", map[string]string{"why": derr.Why, "reader": "dev/disasm"}, "the record damaged by %s (%d bytes) is malformed (%v) but the disassembler executable exits with status 0", desc, len(b), derr)
+			}
+			if derr == nil && !ok {
+				addV("disassembler-rejects-valid", map[string]string{"reader": "dev/disasm"}, "the record damaged by %s (%d bytes) is a sequence of %d complete valid instructions but the disassembler executable fails", desc, len(b), len(insts))
+			}
+		}
 		check("append", fmt.Sprintf("nothing, behind %d valid instructions", n), long(good))
 		for i := 0; i < 3; i++ {
 			k := t.Range(1, len(good)-1)
 			check("truncate", fmt.Sprintf("truncation to %d of %d bytes behind %d valid instructions", k, len(good), n), long(good[:k]))
 		}
 		check("append", fmt.Sprintf("ffff appended behind %d valid instructions", n), long([]byte{0xff, 0xff}))
+		exe(fmt.Sprintf("nothing, behind %d valid instructions", n), long(good))
+		exe(fmt.Sprintf("ffff appended behind %d valid instructions", n), long([]byte{0xff, 0xff}))
+		exe(fmt.Sprintf("a cut in the last of %d valid instructions", n), pb[:len(pb)-1])
+		exe(fmt.Sprintf("truncation to %d of %d bytes behind %d valid instructions", len(good)/2, len(good), n), long(good[:len(good)/2]))
 		check("append", fmt.Sprintf("0003 02 appended behind %d valid instructions", n), long([]byte{0x00, 0x03, 0x02}))
 		check("truncate", fmt.Sprintf("a cut in the last of %d valid instructions", n), pb[:len(pb)-1])
 	}
@@ -299,4 +327,37 @@ func decodingSite(at string) bool {
 		}
 	}
 	return false
+}
+
+// runDisasm writes a record to a scratch file on the real file system and runs the repository's
+// disassembler executable (built next to the simulator by build.sh) on it. ok = exit status 0.
+func runDisasm(b []byte) (ok bool, infra string) {
+	self, err := os.Executable()
+	if err != nil {
+		return false, err.Error()
+	}
+	bin := filepath.Join(filepath.Dir(self), "vise-disasm")
+	if _, err := os.Stat(bin); err != nil {
+		return false, "missing " + bin + " (build.sh builds it)"
+	}
+	f, err := os.CreateTemp("", "visim-c15-*.bin")
+	if err != nil {
+		return false, err.Error()
+	}
+	defer os.Remove(f.Name())
+	if _, err := f.Write(b); err != nil {
+		f.Close()
+		return false, err.Error()
+	}
+	f.Close()
+	cmd := exec.Command(bin, f.Name())
+	cmd.Stdout, cmd.Stderr = nil, nil
+	err = cmd.Run()
+	if err == nil {
+		return true, ""
+	}
+	if _, isExit := err.(*exec.ExitError); isExit {
+		return false, ""
+	}
+	return false, err.Error()
 }
